@@ -205,7 +205,12 @@ func newBalancer(rebalance bool) *instance {
 		// an always-ready error-ratio meter, so that weights really get adjusted while
 		// requests and administration overlap (the default meter needs 10 s of history)
 		rb, _ := roundrobin.NewRebalancer(rr, roundrobin.RebalancerStickySession(roundrobin.NewStickySession("sid")),
-			roundrobin.RebalancerBackoff(50*time.Microsecond), roundrobin.RebalancerMeter(func() (roundrobin.Meter, error) { return &ratioMeter{}, nil }))
+			roundrobin.RebalancerBackoff(50*time.Microsecond), roundrobin.RebalancerMeter(func() (roundrobin.Meter, error) {
+				for i := 0; i < 3; i++ { // building a meter takes a moment: whoever calls it outside a lock overlaps with others
+					runtime.Gosched()
+				}
+				return &ratioMeter{}, nil
+			}))
 		_ = rb.UpsertServer(mustURL("http://stable2"))
 		front, pool = rb, rb
 	}
@@ -362,8 +367,11 @@ func newMetrics(withReset bool) *instance {
 				if withReset {
 					m.Reset()
 				}
-			case "append": // aggregate the live source into another metrics object
+			case "append": // aggregate the live source into another metrics object, which is itself in use
 				_ = dst.Append(m)
+				dst.Record(200, time.Millisecond)
+				_ = dst.TotalCount()
+				_ = dst.NetworkErrorRatio()
 			}
 		},
 		after: func() string {
